@@ -86,7 +86,7 @@ def _make_world(rng, layered=True, n_flat=None):
 
 
 class TermGen:
-    ALL = frozenset(["complex", "divmod", "keys", "topkeys", "builtins", "eqne", "mathfn"])
+    ALL = frozenset(["complex", "divmod", "keys", "topkeys", "builtins", "eqne", "mathfn", "litexpr"])
 
     def __init__(self, rng, profile="full"):
         self.rng = rng
@@ -102,6 +102,8 @@ class TermGen:
 
     def lit(self, kind):
         r = self.rng
+        if "litexpr" in self.profile and r.random() < 0.12:
+            return ["litexpr", enc(r.choice(self.ints if kind == "int" else self.floats))]
         if kind == "int":
             return ["lit", enc(r.choice(self.ints))]
         x = r.random()
